@@ -122,6 +122,12 @@ func extrasMain(args []string) error {
 		emit("StreamI.FromArrayFloat64", xs, nil, 0, ifaceInts(SI.FromArrayFloat64(f64)), true)
 		emit("StreamI.FromArrayString", xs, nil, 0, ifaceInts(SI.FromArrayString(ss)), true)
 		emit("StreamI.FromArrayMaybe", xs, nil, 0, ifaceInts(SI.FromArrayMaybe(ms)), true)
+		bits, bools := make([]int, len(xs)), make([]bool, len(xs)) // booleans: the parity of each element, as 0 / 1
+		for i, x := range xs {
+			bits[i] = x & 1
+			bools[i] = x&1 == 1
+		}
+		emit("StreamI.FromArrayBool", bits, nil, 0, ifaceInts(SI.FromArrayBool(bools)), true)
 		// sets: keys + "all values are the zero value"
 		gset := func(m *fpgo.MapSetDef[int, int]) ([]int, bool) {
 			z := true
